@@ -133,5 +133,5 @@ func (n *Node) VSelectorUpdateLast(id uint32, connected bool) bool {
 	return n.core.peerSelector.updateLast(id, connected)
 }
 
-func (n *Node) VLockCore()                      { n.coreLock.Lock() }
-func (n *Node) VUnlockCore()                    { n.coreLock.Unlock() }
+func (n *Node) VLockCore()   { n.coreLock.Lock() }
+func (n *Node) VUnlockCore() { n.coreLock.Unlock() }
